@@ -8,8 +8,11 @@ CONSTANTS
  ResetInTransition = TRUE
  ResetBeforeWindow = FALSE
  StrobeInTransition = TRUE
+ PartialOutcomes = TRUE
+ ShallowChangeTest = FALSE
+ CacheFromPoller = FALSE
  FixLevel = 2
 INIT Init
 NEXT Next
-INVARIANTS TypeOK NoStaleClock NoStaleObs NoticedInv
+INVARIANTS TypeOK NoStaleClock NoStaleObs NoticedInv NoOverwrite
 CHECK_DEADLOCK FALSE
